@@ -425,13 +425,27 @@ def make_engine(index, schema_mod, contract=None):
     return eng
 
 
+class _MissingSource:
+    """Stand-in FuncSrc for a contract whose target (or block) no longer exists in the source tree."""
+    def __init__(self, target):
+        self.file, self.qualname = target.split("::")[0], target.split("::")[-1]
+        self.sha256, self.lineno, self.end_lineno, self.cls, self.text = None, 0, 0, None, ""
+
+
 def verify(contract, index, schema_mod, keep_states=True):
     t0 = time.time()
-    fs = index.func(contract.target)
-    if contract.block is not None:
-        from .source import extract_block
-        bname, selector = contract.block
-        fs = extract_block(fs, selector, bname, list(contract.params))
+    try:
+        fs = index.func(contract.target)
+        if contract.block is not None:
+            from .source import extract_block
+            bname, selector = contract.block
+            fs = extract_block(fs, selector, bname, list(contract.params))
+    except (KeyError, FileNotFoundError) as e:
+        # the function / statement block under contract was renamed, moved or removed: nothing can be decided
+        res = FunctionResult(contract, _MissingSource(contract.target))
+        res.error = f"SourceNotFound: {e}"
+        res.wall = time.time() - t0
+        return res
     res = FunctionResult(contract, fs)
     try:
         _verify(contract, index, schema_mod, fs, res)
